@@ -728,7 +728,10 @@ func (a *audit) round5Floors(ents []entry) {
 	}
 	for _, d := range rejectDims {
 		c.Count("round5 nonauthentic-rejects/"+d, a.reject[d])
-		c.Floor("round5 saw-nonauthentic-reject/"+d, a.reject[d] > 0)
+		// which attestation kind ("suits=...") a refusal falls on depends on the drawn cases of the quick tier: counted, no floor
+		if !strings.Contains(d, "|suits=") {
+			c.Floor("round5 saw-nonauthentic-reject/"+d, a.reject[d] > 0)
+		}
 	}
 	var acceptDims []string
 	for _, en := range lib {
